@@ -5,6 +5,7 @@ from props.C05 import KINDS, _sub
 ID = "C06"
 LEVEL_TEXT = ('For every tree, every filter_/stop predicate on node objects and every maxlevel (any integer or None) the mirror of each iterator is proved equal to the textbook traversal of the admitted tree (nodes at relative depth below maxlevel with no stop node on their path) followed by filter_; maxlevel <= 0 and a stopped start node are proved to yield nothing; grouped iterators proved to yield one tuple per admitted level. Tied to /repo by exhaustive stop x filter x maxlevel enumeration on all shapes up to 4 nodes and sampled larger cases for all five iterators.')
 LEVEL_NOTE = ('Trusted: Lean kernel; standard axioms only; the mirror lean/Anytree/Model/Iter.lean; generators. filter_/stop assumed pure and total. The characterisation of the admitted tree by addresses (membership = no stop on the path and depth < maxlevel) is by definition of Spec.admitT, a 6-line structural recursion.')
+MODULES = ['Anytree.Props.C06', 'Anytree.Props.C06b']
 THEOREMS = [
     ("Anytree.Props.C06.preIter_spec", "full"),
     ("Anytree.Props.C06.postIter_spec", "full"),
@@ -14,6 +15,25 @@ THEOREMS = [
     ("Anytree.Props.C06.maxlevel_nonpos_nil", "full"),
     ("Anytree.Props.C06.stop_start_nil", "full"),
     ("Anytree.Props.C06.group_flatten_eq_level", "full"),
+    ("Anytree.Props.C06b.admittedB_iff", "full"),
+    ("Anytree.Props.C06b.pre_positional", "full"),
+    ("Anytree.Props.C06b.post_positional", "full"),
+    ("Anytree.Props.C06b.level_positional", "full"),
+    ("Anytree.Props.C06b.group_positional", "full"),
+    ("Anytree.Props.C06b.preIter_positional", "full"),
+    ("Anytree.Props.C06b.postIter_positional", "full"),
+    ("Anytree.Props.C06b.levelIter_positional", "full"),
+    ("Anytree.Props.C06b.groupIter_positional", "full"),
+    ("Anytree.Props.C06b.zigzagIter_positional", "full"),
+    ("Anytree.Props.C06b.group_count", "full"),
+    ("Anytree.Props.C06b.mem_admitted_iff", "full"),
+    ("Anytree.Props.C06b.mem_preIter_iff", "full"),
+    ("Anytree.Props.C06b.stop_prunes_subtree", "full"),
+    ("Anytree.Props.C06b.maxlevel_cuts_depth", "full"),
+    ("Anytree.Props.C06b.filter_hides_only_itself", "full"),
+    ("Anytree.Props.C06b.iterators_perm", "full"),
+    ("Anytree.Props.C06b.mem_iterators_iff", "full"),
+    ("Anytree.Props.C06b.iterators_sublist", "full"),
 ]
 NOT_COVERED = []
 RULE = ("all shapes up to 4 nodes, root start, every stop subset x every filtered-out subset x maxlevel in "
